@@ -87,9 +87,14 @@ func c09Run(ctx *core.Ctx) {
 										}
 										c.Steps = append(c.Steps, st)
 									}
-									hist := []string{"", "", "pregreet", "afterrset", "afterehlo", "plainauth-then-starttls"}[idx%6]
-									c.History = hist
-									emit(c)
+									for hi, hist := range []string{"", "pregreet", "afterrset", "afterehlo", "plainauth-then-starttls"} {
+										if !ctx.Thorough() && hi != 0 && (idx+hi)%2 == 0 {
+											continue
+										}
+										cc := c
+										cc.History = hist
+										emit(cc)
+									}
 								}
 							}
 						}
